@@ -1,13 +1,13 @@
 package core
 
 import (
-	"runtime"
 	"bufio"
 	"encoding/json"
 	"fmt"
 	"go/token"
 	"os"
 	"path/filepath"
+	"runtime"
 	"sort"
 	"strings"
 	"time"
